@@ -258,6 +258,18 @@ theorem interlock_pinned_ineffective (lr : Bool) :
     (serializeReceiver false lr (serializeSender false lr {}).2).1 = .localRemote := by
   cases lr <;> decide
 
+/-- **Retry with the other half.**  A send that fails after it serialized one half of a bin / lr channel
+hands the half back and returns the interlock to "local": sending the *other* half afterwards is the
+ordinary local-remote case again (the received half is wired to the handed-back counterpart).  Only a
+send whose port requests went out makes the second half forward (bin) or be refused (lr). -/
+theorem interlock_failed_send_restores (lr : Bool) :
+    (serializeReceiver true lr ((serializeSender true lr {}).2.endSend false)).1 = .localRemote ∧
+    (serializeSender true lr ((serializeReceiver true lr {}).2.endSend false)).1 = .localRemote ∧
+    ((serializeSender true lr {}).2.endSend false) = {} ∧
+    (serializeReceiver true lr ((serializeSender true lr {}).2.endSend true)).1 = (if lr then .refused else .forwarding) ∧
+    (serializeSender true lr ((serializeReceiver true lr {}).2.endSend true)).1 = (if lr then .refused else .forwarding) := by
+  cases lr <;> decide
+
 /-! ### a half that cannot be connected -/
 
 def ConnInv (s : ConnSt) : Prop :=
